@@ -402,7 +402,10 @@ def partial_ne(i, fr, st, pc, a, t, fn, r):
     cands = [b for b, sty, tr in i.facts.trait_impl_methods("std::cmp::PartialEq") if sty.get("path") == path and b["name"] == "eq"]
     if not cands:
         raise Undecided("PartialEq::ne on %s" % selfty.get("s"))
-    outs = i.call_mir(cands[0], cands[0]["mir"], a, st, dict(fr.env), fr.depth + 1, pc)
+    if cands[0]["key"] in i.opaque_fns:
+        outs = i.opaque_fns[cands[0]["key"]](i, fr, a, st, pc, t)
+    else:
+        outs = i.call_mir(cands[0], cands[0]["mir"], a, st, dict(fr.env), fr.depth + 1, pc)
     res = []
     for o in outs:
         if o.kind == "return":
@@ -469,6 +472,14 @@ def str_len(i, fr, st, pc, a, t, fn, r):
     return _ret(i, st, pc, s.data[1])
 
 
+def _ascii_guarded(pc):
+    a = B.atom("str.is_ascii")
+    for c in pc:
+        if isinstance(c, W) and c.val is None and c.bits[0] == a:
+            return True
+    return False
+
+
 def str_index_range(i, fr, st, pc, a, t, fn, r):
     s, rg = a
     st_, en = rg.fields
@@ -477,9 +488,18 @@ def str_index_range(i, fr, st, pc, a, t, fn, r):
     ln = s.data[1] if len(s.data) > 1 else None
     if s.data[0] is not None:
         return _ret(i, st, pc, Opaque("str", (s.data[0][st_.val:en.val], usize(en.val - st_.val))))
-    if ln is not None and ln.val is not None and en.val > ln.val:
+    if ln is None or ln.val is None:
+        raise Undecided("slice of a string of unknown length")
+    if en.val > ln.val or st_.val > en.val:
         return i.panic(st, pc, "str index out of range", fr, t)
-    return _ret(i, st, pc, Opaque("str", (None, usize(en.val - st_.val), ("sub", st_.val, en.val))))
+    base = s.data[2][1] if len(s.data) > 2 else 0
+    sub = Opaque("str", (None, usize(en.val - st_.val), ("sub", base + st_.val, base + en.val)))
+    outs = [Outcome("return", st, pc, sub)]
+    if not _ascii_guarded(pc) and (st_.val > 0 or en.val < ln.val):
+        # a multi-byte character may straddle the boundary
+        info = dict(kind="std", msg="byte index is not a char boundary (string not known to be ASCII)", fn=fr.fn_path, span=t["span"], profile_dependent=False, definite=False)
+        outs.append(Outcome("panic", st.fork(), pc, None, info))
+    return outs
 
 
 def from_str_radix(i, fr, st, pc, a, t, fn, r):
@@ -493,9 +513,11 @@ def from_str_radix(i, fr, st, pc, a, t, fn, r):
         raise Undecided("from_str_radix shape")
     k = getattr(i, "parse_calls", 0)
     i.parse_calls = k + 1
+    if len(s.data) > 2:
+        k = "@%d" % s.data[2][1]
     nb = min(64, 4 * ln.val)
-    bits = [B.atom("parse%d[%d]" % (k, b)) for b in range(nb)] + [ZERO] * (64 - nb)
-    ok = W(1, bits=[B.atom("parse%d.ok" % k)])
+    bits = [B.atom("parse%s[%d]" % (k, b)) for b in range(nb)] + [ZERO] * (64 - nb)
+    ok = W(1, bits=[B.atom("parse%s.ok" % k)])
     st2 = st.fork()
     return [
         Outcome("return", st, pc + (ok,), Agg("adt", RESULT, 0, (W(64, bits=bits),))),
@@ -512,7 +534,25 @@ def str_iter_pred(i, fr, st, pc, a, t, fn, r):
     the text (fresh atom per call)"""
     k = getattr(i, "strpred_calls", 0)
     i.strpred_calls = k + 1
-    return _ret(i, st, pc, W(1, bits=[B.atom("strpred%d" % k)]))
+    tag = "unknown"
+    src = a[0]
+    pos = ""
+    if isinstance(src, Ptr):
+        src = i.read_ptr(st, src)
+    if isinstance(src, Opaque) and src.kind == "str_iter":
+        sv = src.data[0]
+        if isinstance(sv, Ptr):
+            sv = i.read_ptr(st, sv)
+        if isinstance(sv, Opaque) and len(sv.data) > 2:
+            pos = "@%d" % sv.data[2][1]
+    clos = a[1] if len(a) > 1 else None
+    if isinstance(clos, Agg) and clos.kind == "closure":
+        body = i.facts.body(clos.key)
+        if body is not None:
+            calls = [blk["term"]["func"].get("path", "") for blk in body["mir"]["blocks"] if blk["term"]["k"] == "call" and "indirect" not in blk["term"]["func"]]
+            if len(calls) == 1 and ("is_ascii_hexdigit" in calls[0] or calls[0].endswith("::is_digit") or calls[0].endswith("::to_digit")):
+                tag = "hexdigit-%s" % fn["name"]
+    return _ret(i, st, pc, W(1, bits=[B.atom("strpred%s:%s" % (pos or k, tag))]))
 
 
 def call_closure(i, fr, st, pc, clos, args):
@@ -639,6 +679,7 @@ TABLE = {
     "<std::slice::Iter<'a, T> as std::iter::Iterator>::next": generic_next,
     "<std::slice::IterMut<'a, T> as std::iter::Iterator>::next": generic_next,
     "<std::iter::Enumerate<I> as std::iter::Iterator>::next": generic_next,
+    "<std::iter::Filter<I, P> as std::iter::Iterator>::next": generic_next,
     "<std::iter::Rev<I> as std::iter::Iterator>::next": generic_next,
     "<std::iter::Zip<A, B> as std::iter::Iterator>::next": generic_next,
     "std::iter::range::<impl std::iter::Iterator for std::ops::Range<A>>::next": generic_next,
@@ -711,5 +752,232 @@ TABLE = {
     "<std::result::Result<T, E> as std::ops::Try>::branch": try_branch,
     "<std::result::Result<T, F> as std::ops::FromResidual<std::result::Result<std::convert::Infallible, E>>>::from_residual": from_residual,
 }
+
+# ---------------------------------------------------------------------------------- formatting
+# A String / the text written to a Formatter is a token list.  Tokens:
+#   ('lit', text)                                   literal text
+#   ('fmt', kind, flags, width, value)              a formatted value: kind display|lower_hex|binary,
+#                                                   flags e.g. '0', width = W or None, value = abstract value
+#   ('str_of', name)                                Display text of an opaque symbolic element
+# Opaque('string', (tokens,)) ; Opaque('formatter', (tokens,)) ; Opaque('fmtarg', (kind, value)) ;
+# Opaque('fmtargs', (literal, args))
+import re as _re
+
+_PH = _re.compile(r"\{\{|\}\}|\{([^{}]*)\}")
+
+
+def fmt_literal(snippet):
+    """first string literal of a format macro call"""
+    if snippet is None:
+        return None
+    m = _re.search(r'"((?:[^"\\]|\\.)*)"', snippet)
+    if not m:
+        return None
+    return m.group(1).replace('\\"', '"').replace("\\n", "\n").replace("\\\\", "\\")
+
+
+def render(literal, args):
+    vals = [a for a in args if a.data[0] != "usize"]
+    counts = [a for a in args if a.data[0] == "usize"]
+    toks = []
+    pos = 0
+    vi = 0
+    for m in _PH.finditer(literal):
+        if m.start() > pos:
+            toks.append(("lit", literal[pos:m.start()]))
+        pos = m.end()
+        g = m.group(0)
+        if g == "{{":
+            toks.append(("lit", "{"))
+            continue
+        if g == "}}":
+            toks.append(("lit", "}"))
+            continue
+        spec = m.group(1)
+        fspec = spec.split(":", 1)[1] if ":" in spec else ""
+        flags = "0" if _re.match(r"^[<^>]?[+-]?#?0", fspec) else ""
+        width = None
+        wm = _re.search(r"(\w+)\$", fspec)
+        if wm and counts:
+            width = counts[0].data[1]
+        else:
+            wn = _re.match(r"^[<^>]?[+-]?#?0?(\d+)", fspec)
+            if wn:
+                width = wconst(64, int(wn.group(1)))
+        if vi >= len(vals):
+            raise Undecided("format placeholder without argument")
+        a = vals[vi]
+        vi += 1
+        v = a.data[1]
+        if isinstance(v, Opaque) and v.kind == "string" and a.data[0] == "display" and width is None:
+            toks.extend(v.data[0])
+        elif isinstance(v, Opaque) and v.kind == "str" and a.data[0] == "display" and v.data[0] is not None and width is None:
+            toks.append(("lit", v.data[0]))
+        else:
+            toks.append(("fmt", a.data[0], flags, width, v))
+    if pos < len(literal):
+        toks.append(("lit", literal[pos:]))
+    return tuple(toks)
+
+
+def fmt_argument(kind):
+    def f(i, fr, st, pc, a, t, fn, r):
+        v = i.read_ptr(st, a[0]) if isinstance(a[0], Ptr) else a[0]
+        while isinstance(v, Ptr) and v.kind == "ref" and v.sl is None:
+            v = i.read_ptr(st, v)
+        return _ret(i, st, pc, Opaque("fmtarg", (kind, v)))
+    return f
+
+
+def fmt_arguments_new(i, fr, st, pc, a, t, fn, r):
+    lit = fmt_literal(t.get("snippet"))
+    if lit is None:
+        raise Undecided("format string literal not found")
+    args = list(i.slice_elems(st, a[1])) if isinstance(a[1], Ptr) else []
+    return _ret(i, st, pc, Opaque("fmtargs", (lit, tuple(args))))
+
+
+def fmt_arguments_from_str(i, fr, st, pc, a, t, fn, r):
+    s = a[0]
+    if not (isinstance(s, Opaque) and s.kind == "str" and s.data[0] is not None):
+        raise Undecided("Arguments::from_str of %r" % (s,))
+    return _ret(i, st, pc, Opaque("fmtargs", (s.data[0].replace("{", "{{").replace("}", "}}"), ())))
+
+
+def fmt_format(i, fr, st, pc, a, t, fn, r):
+    fa = a[0]
+    return _ret(i, st, pc, Opaque("string", (render(fa.data[0], fa.data[1]),)))
+
+
+def fmt_write_fmt(i, fr, st, pc, a, t, fn, r):
+    fp, fa = a
+    f = i.read_ptr(st, fp)
+    if not (isinstance(f, Opaque) and f.kind == "formatter"):
+        raise Undecided("write_fmt on %r" % (f,))
+    i.write_ptr(st, fp, Opaque("formatter", (f.data[0] + render(fa.data[0], fa.data[1]),)))
+    return _ret(i, st, pc, Agg("adt", RESULT, 0, (UNIT,)))
+
+
+def string_new(i, fr, st, pc, a, t, fn, r):
+    return _ret(i, st, pc, Opaque("string", ((),)))
+
+
+def string_tokens(i, st, v):
+    v = i.read_ptr(st, v) if isinstance(v, Ptr) else v
+    if isinstance(v, Opaque) and v.kind == "string":
+        return v.data[0]
+    if isinstance(v, Opaque) and v.kind == "str" and v.data[0] is not None:
+        return (("lit", v.data[0]),) if v.data[0] else ()
+    raise Undecided("text of %r" % (v,))
+
+
+def string_push_str(i, fr, st, pc, a, t, fn, r):
+    s = i.read_ptr(st, a[0])
+    i.write_ptr(st, a[0], Opaque("string", (s.data[0] + string_tokens(i, st, a[1]),)))
+    return _ret(i, st, pc, UNIT)
+
+
+def string_deref(i, fr, st, pc, a, t, fn, r):
+    return _ret(i, st, pc, i.read_ptr(st, a[0]))
+
+
+def to_string(i, fr, st, pc, a, t, fn, r):
+    v = i.read_ptr(st, a[0]) if isinstance(a[0], Ptr) else a[0]
+    while isinstance(v, Ptr) and v.sl is None:
+        v = i.read_ptr(st, v)
+    if isinstance(v, Opaque) and v.kind in ("str", "string"):
+        return _ret(i, st, pc, Opaque("string", (string_tokens(i, st, v),)))
+    if isinstance(v, Agg) and v.kind == "adt":
+        from .sopmodel import elem_name
+        nm = elem_name(v)
+        if nm is not None and getattr(i, "opaque_elements", False):
+            return _ret(i, st, pc, Opaque("string", ((("str_of", nm),),)))
+        # run the local Display impl on a fresh formatter
+        cands = [b for b, sty, tr in i.facts.trait_impl_methods("std::fmt::Display") if sty.get("path") == v.key]
+        if cands:
+            cell, fc = new_cell(), new_cell()
+            st.mem[cell] = v
+            st.mem[fc] = Opaque("formatter", ((),))
+            outs = i.call_mir(cands[0], cands[0]["mir"], [Ptr(cell, ()), Ptr(fc, ())], st, dict(fr.env), fr.depth + 1, pc)
+            res = []
+            for o in outs:
+                if o.kind == "return":
+                    res.append(Outcome("return", o.state, o.pc, Opaque("string", (i.read_ptr(o.state, Ptr(fc, ())).data[0],))))
+                else:
+                    res.append(o)
+            return res
+    raise Undecided("to_string of %r" % (v,))
+
+
+def slice_join(i, fr, st, pc, a, t, fn, r):
+    items = list(i.slice_elems(st, a[0]))
+    sep = string_tokens(i, st, a[1])
+    toks = ()
+    for k, it_ in enumerate(items):
+        if k:
+            toks += sep
+        toks += string_tokens(i, st, it_)
+    return _ret(i, st, pc, Opaque("string", (toks,)))
+
+
+def it_map(i, fr, st, pc, a, t, fn, r):
+    return _ret(i, st, pc, Opaque("map", (a[0], a[1])))
+
+
+def it_collect(i, fr, st, pc, a, t, fn, r):
+    src = a[0]
+    if not (isinstance(src, Opaque) and src.kind == "map"):
+        raise Undecided("collect of %r" % (src,))
+    inner, clos = src.data
+    work = [(st, pc, [], inner)]
+    done = []
+    while work:
+        s, p, acc, cur = work.pop()
+        cur2, item = iter_next(i, s, cur)
+        if item is None:
+            cell = new_cell()
+            s.mem[cell] = Arr(acc)
+            done.append(Outcome("return", s, p, Ptr(cell, (), (0, len(acc)), "vec")))
+            continue
+        for o in call_closure(i, fr, s, p, clos, [item]):
+            if o.kind != "return":
+                done.append(o)
+            else:
+                work.append((o.state, o.pc, acc + [o.value], cur2))
+    return done
+
+
+def it_skip(i, fr, st, pc, a, t, fn, r):
+    it, n = a
+    if n.val is None:
+        raise Undecided("symbolic skip")
+    for _ in range(n.val):
+        it, x = iter_next(i, st, it)
+        if x is None:
+            break
+    return _ret(i, st, pc, it)
+
+
+TABLE.update({
+    "core::fmt::rt::Argument::<'_>::new_display": fmt_argument("display"),
+    "core::fmt::rt::Argument::<'_>::new_lower_hex": fmt_argument("lower_hex"),
+    "core::fmt::rt::Argument::<'_>::new_upper_hex": fmt_argument("upper_hex"),
+    "core::fmt::rt::Argument::<'_>::new_binary": fmt_argument("binary"),
+    "core::fmt::rt::Argument::<'_>::new_debug": fmt_argument("debug"),
+    "core::fmt::rt::Argument::<'_>::from_usize": fmt_argument("usize"),
+    "std::fmt::Arguments::<'a>::new": fmt_arguments_new,
+    "std::fmt::Arguments::<'a>::from_str": fmt_arguments_from_str,
+    "std::fmt::format": fmt_format,
+    "std::hint::must_use": identity,
+    "std::fmt::Formatter::<'a>::write_fmt": fmt_write_fmt,
+    "std::string::String::new": string_new,
+    "std::string::String::push_str": string_push_str,
+    "<std::string::String as std::ops::Deref>::deref": string_deref,
+    "<T as std::string::ToString>::to_string": to_string,
+    "std::slice::<impl [T]>::join": slice_join,
+    "std::iter::Iterator::map": it_map,
+    "std::iter::Iterator::collect": it_collect,
+    "std::iter::Iterator::skip": it_skip,
+})
 
 PREFIX = []
